@@ -62,6 +62,11 @@ pub struct Spec {
     /// the parent carries out its disposition when the k-th stalled free has begun (0 = no rendezvous)
     #[serde(default)]
     pub stall_k: u8,
+    /// a batch with such a spec runs WITHOUT the probe's quarantine: freed blocks go straight back to the
+    /// allocator, so that the join state of a thread can be handed to the next spawn while the kernel still
+    /// owes its exit write
+    #[serde(default)]
+    pub reuse: bool,
 }
 
 impl Spec {
@@ -90,7 +95,8 @@ pub fn encode_batch(b: &Batch) -> Vec<u8> {
         pl.extend_from_slice(&s.tag.to_le_bytes());
         pl.extend_from_slice(&s.stall_ns.to_le_bytes());
         pl.push(s.stall_k);
-        pl.extend_from_slice(&[0u8; 3]);
+        pl.push(s.reuse as u8);
+        pl.extend_from_slice(&[0u8; 2]);
     }
     let mut out = (pl.len() as u32).to_le_bytes().to_vec();
     out.extend_from_slice(&pl);
